@@ -598,14 +598,20 @@ func (hl MapLiteral) PrettyPrint(out *PrintState) *PrintState {
 	if out.Compact {
 		sep = ","
 	}
+	oldExpressionPrecedence := out.ExpressionPrecedence
 	for i, key := range hl.Order {
 		if i > 0 {
 			out.Print(sep)
 		}
+		// key:value is read back as the two sides of a `:` infix expression (which has the precedence of &&):
+		// the key keeps its parentheses when it binds looser, the value when it doesn't bind tighter.
+		out.ExpressionPrecedence = AND
 		key.PrettyPrint(out)
 		out.Print(":")
+		out.ExpressionPrecedence = LAMBDA
 		hl.Pairs[key].PrettyPrint(out)
 	}
+	out.ExpressionPrecedence = oldExpressionPrecedence
 	out.Print("}")
 	return out
 }
